@@ -142,7 +142,21 @@ def coq_val(v):
         return "(%s %s)" % ("VList" if t == "list" else "VTuple", clist(el))
     if t == "float":
         return "VOther"
+    if t == "iter":
+        # an iterator view: the model iterates its elements like those of a list
+        return "(VList %s)" % clist([coq_val(e) for e in iter_elems(v)])
+    if t == "range":
+        # as an iterable argument a range is the list of its elements (its own operations: CRangeSlice / CRangeIndex)
+        a, b, st = v["r"]
+        return "(VList %s)" % clist(["(VInt %s)" % cz(i) for i in range(a, b, st)])
     return None
+
+
+def iter_elems(v):
+    b = vbytes(v)
+    if v["m"] in ("codepoints", "elems"):
+        return [{"t": "str", "s": bytes([c]).hex()} for c in b]
+    return [{"t": "int", "i": str(c)} for c in b]
 
 
 def coq_arg(v):
@@ -302,6 +316,11 @@ def sort_elems(c):
     args = c.get("args") or []
     if len(args) == 1 and args[0]["t"] in ("list", "tuple"):
         return args[0].get("l", [])
+    if len(args) == 1 and args[0]["t"] == "iter":
+        return iter_elems(args[0])
+    if len(args) == 1 and args[0]["t"] == "range":
+        a, b, st = args[0]["r"]
+        return [{"t": "int", "i": str(i)} for i in range(a, b, st)]
     if c["name"] != "sorted" and len(args) >= 2:
         return args
     return None
@@ -355,6 +374,8 @@ def argclass(a):
         return "int"
     if t in ("str", "bytes"):
         return t + ("-empty" if not a.get("s") else "")
+    if t == "iter":
+        return "iter-" + a["m"]
     return t
 
 
@@ -421,6 +442,11 @@ def show(v):
         return repr(float(v["f"])) if v.get("f") else "1.5"
     if t == "range":
         return "range(%d, %d, %d)" % tuple(v["r"])
+    if t == "iter":
+        lit = json.dumps(vbytes(v).decode("latin-1"))
+        return ("b" + lit + ".elems()") if v["m"] == "belems" else "%s.%s()" % (lit, v["m"])
+    if t == "nil":
+        return "<nil>"
     if t in ("err", "panic"):
         return "<%s: %s>" % (t, v.get("m", ""))
     return "?"
@@ -662,7 +688,7 @@ def run(ctx):
         "evaluations": stats["total"],
         "distinct_nontrivial": len(set(t for t, c in zip(terms, refs) if nontrivial(c))),
         "coq_cases": len(terms), "cpython_cases": len(allpy), "go_oracle_cases": stats["total"],
-        "rule": "exhaustive (lo, hi, step) in ([-n-3, n+3] U None)^3 for every receiver of length <= %d over {a,b,c} and sampled receivers up to length 8, for string, bytes, list, tuple and five range shapes; every index in the pool; method argument tuples over needles/separators of length 0-3, all (start, end) pairs of the pool, omitted optionals, None, wrong types, counts -7..n+1; huge counts/indices (2^31-1, 2^31, 2^32, +-2^62, 2^63-1, 2^63, 2^100) in a child process; sorted/min/max on every list of length 0-4 over pools with duplicates and on random lists to length 8, keys len / x%%3 / constant / first / lower / int / -x and none, mixed 1 / 1.0 / True, reverse omitted / True / False; seeded random receivers to length 40. Every executed case is compared with the Go copy of the specification; `distinct_nontrivial` counts the distinct cases evaluated in Coq against C13 model and Spec.v whose result is a value or an index/method error" % (2 if ctx.quick() else 5),
+        "rule": "exhaustive (lo, hi, step) in ([-n-3, n+3] U None)^3 for every receiver of length <= %d over {a,b,c} and sampled receivers up to length 8, for string, bytes, list, tuple and five range shapes; every index in the pool; method argument tuples over needles/separators of length 0-3, all (start, end) pairs of the pool, omitted optionals, None, wrong types, counts -7..n+1; huge counts/indices (2^31-1, 2^31, 2^32, +-2^62, 2^63-1, 2^63, 2^100) in a child process; sorted/min/max on every list of length 0-4 over pools with duplicates and on random lists to length 8, keys len / x%%3 / constant / first / lower / int / -x and none, mixed 1 / 1.0 / True, reverse omitted / True / False; every iterable-taking built-in / method (zip, enumerate, reversed, sorted, min, max, any, all, list, tuple, list.extend, str.join) on sequences with a known length (list, tuple, range, str.elems(), str.elem_ords()) and on length-less iterables (str.codepoints(), str.codepoint_ords(), bytes.elems()) in every argument position with lengths 0-4 shorter / equal / longer than the other arguments; every returned value is validated deeply (a nil element is a finding by itself); seeded random receivers to length 40. Every executed case is compared with the Go copy of the specification; `distinct_nontrivial` counts the distinct cases evaluated in Coq against C13 model and Spec.v whose result is a value or an index/method error" % (2 if ctx.quick() else 5),
         "samples": samples, "distribution": dist,
         "model_mismatches": len(bad_model), "spec_mismatches": len(bad_spec), "go_oracle_mismatches": stats["gomis"],
         "cpython_differences": len(py_diff), "cpython_documented_differences": documented,
